@@ -46,7 +46,7 @@ Get(f, k, d) == IF k \in DOMAIN f THEN f[k] ELSE d
 Put(f, k, v) == (k :> v) @@ f
 Now(e) == IF "now" \in DOMAIN e THEN e.now ELSE 0
 
-NoG == [st |-> "idle", key |-> 0, mode |-> "w", ask |-> 0, cancelled |-> FALSE, told |-> FALSE, alone |-> FALSE]
+NoG == [st |-> "idle", key |-> 0, mode |-> "w", ask |-> 0, cancelled |-> FALSE, told |-> FALSE, alone |-> FALSE, wclean |-> FALSE]
 
 CReset(e) == [bad |-> FALSE, why |-> "", prim |-> e.prim, graceful |-> e.graceful,
               g |-> << >>,       \* goroutine -> NoG-shaped record; st: idle | calling | held | in | out | releasing
@@ -70,10 +70,14 @@ Unqueue(c, k, g) ==
 (* (acq_call .. acq_ret); any other call that starts meanwhile ends it for everybody who waits            *)
 CAcqCall(c, e) ==
   IF Get(c.g, e.g, NoG).st # "idle" THEN Bad("harness-acq-call-while-busy")
-  ELSE LET others == [h \in Gs(c) \ {e.g} |-> [c.g[h] EXCEPT !.alone = FALSE]]
+  ELSE LET others == [h \in Gs(c) \ {e.g} |-> [c.g[h] EXCEPT !.alone = FALSE, !.wclean = IF e.mode = "w" THEN FALSE ELSE @]]
            quiet == \A h \in Gs(c) \ {e.g} : c.g[h].st = "idle"
+           \* wclean: no other writer holds, waits or arrives during this writer's call - nothing but readers stands
+           \* between its Lock call and the start of the grace period
+           nowriter == \A h \in Gs(c) \ {e.g} : c.g[h].mode # "w" \/ c.g[h].st = "idle"
        IN [c EXCEPT !.g = Put(others, e.g, [st |-> "calling", key |-> e.key, mode |-> e.mode, ask |-> Now(e),
-                                            cancelled |-> e.pre, told |-> FALSE, alone |-> quiet]),
+                                            cancelled |-> e.pre, told |-> FALSE, alone |-> quiet,
+                                            wclean |-> e.mode = "w" /\ nowriter]),
                     !.lastk = e.key]
 
 CArrive(c, e) ==
@@ -95,6 +99,8 @@ CAcqRet(c, e) ==
        THEN Bad("outer-reader-admitted-while-writer-holds")
   ELSE IF Outer(c) /\ r.mode = "w" /\ \E h \in liveR : ~c.g[h].told
        THEN Bad("outer-writer-granted-before-reader-released-or-cancelled")
+  ELSE IF Outer(c) /\ r.mode = "w" /\ r.wclean /\ Now(e) > r.ask + c.graceful
+       THEN Bad("outer-writer-not-granted-after-grace")
   ELSE IF Outer(c) /\ r.mode = "w" /\ r.alone /\ Now(e) > r.ask
        THEN Bad("outer-writer-delayed-with-nothing-held")    \* an errored or released acquisition still holds something
   ELSE [c EXCEPT !.g[e.g].st = "held", !.q = Unqueue(c, k, e.g)]
@@ -134,6 +140,16 @@ CTold(c, e) ==
             ELSE Bad("outer-reader-cancelled-for-a-writer-with-another-cause")
   ELSE IF ws # {} THEN Bad("outer-reader-cancelled-before-grace-since-writer-asked")
   ELSE Bad("outer-reader-cancelled-for-no-allowed-reason")
+
+(* outer-cancel, upper bound (virtual clock: timers fire at their deadline): a writer with no other writer around  *)
+(* starts the grace period the instant it asks; once it has passed every earlier reader has released or been told *)
+(* to stop, and the writer is granted                                                                            *)
+CAdv(c, e) ==
+  LET late == {h \in Gs(c) : c.g[h].mode = "w" /\ c.g[h].st = "calling" /\ c.g[h].wclean /\ e.now > c.g[h].ask + c.graceful}
+  IN IF ~Outer(c) \/ late = {} THEN c
+     ELSE IF \E h \in Gs(c) : c.g[h].mode = "r" /\ Holding(c, h) /\ ~c.g[h].told
+          THEN Bad("outer-reader-not-told-to-stop-after-grace")
+          ELSE Bad("outer-writer-not-granted-after-grace")
 
 (* fifo map at rest: exactly the keys somebody holds or waits for have an entry *)
 CObs(c, e) ==
@@ -175,7 +191,7 @@ CNext(c, e) ==
          [] e.ev = "cancel"       -> CCancel(c, e)
          [] e.ev = "told_to_stop" -> CTold(c, e)
          [] e.ev = "shutdown"     -> [c EXCEPT !.shut = TRUE]
-         [] e.ev = "adv"          -> c
+         [] e.ev = "adv"          -> CAdv(c, e)
          [] e.ev = "obs"          -> CObs(c, e)
          [] e.ev = "quiet"        -> CQuiet(c, e)
          [] e.ev = "stuck"        -> CStuck(c, e)
